@@ -125,9 +125,67 @@ def receiver_text(s, i):
     return norm(s[j:i])[-120:]
 
 
+STATE_TYPES = {
+    # file -> type names whose fields / variants ARE the state the Lean model represents
+    os.path.join("src", "solvers", "levmar", "mod.rs"): ["LevMarProblem", "CachedCalculations", "FitResult", "LevMarSolver"],
+    os.path.join("src", "solvers", "levmar", "builder.rs"): ["LevMarProblemBuilder"],
+    os.path.join("src", "model", "mod.rs"): ["SeparableModel"],
+    os.path.join("src", "model", "builder", "mod.rs"): ["UnfinishedModel", "SeparableModelBuilder"],
+    os.path.join("src", "model", "builder", "modelfunction_builder", "mod.rs"): ["ModelBasisFunctionBuilder"],
+    os.path.join("src", "model", "model_basis_function.rs"): ["ModelBasisFunction"],
+    os.path.join("src", "statistics", "mod.rs"): ["FitStatistics"],
+    os.path.join("src", "util", "weights.rs"): ["Weights"],
+}
+
+
+def split_top(body):
+    """split a struct / enum body at top-level commas (depth of (), <>, {}, [] all zero)"""
+    parts, cur, d = [], [], 0
+    i = 0
+    while i < len(body):
+        ch = body[i]
+        if ch in "(<{[":
+            d += 1
+        elif ch in ")}]":
+            d -= 1
+        elif ch == ">" and (i == 0 or body[i - 1] != "-"):
+            d -= 1
+        if ch == "," and d == 0:
+            parts.append("".join(cur))
+            cur = []
+        else:
+            cur.append(ch)
+        i += 1
+    if "".join(cur).strip():
+        parts.append("".join(cur))
+    return parts
+
+
+def type_fields(s, name):
+    """fields `name: Type` of struct `name`, or variants of enum `name` (attributes and visibility dropped)"""
+    m = re.search(r"\b(struct|enum)\s+%s\b" % re.escape(name), s)
+    if not m:
+        return None
+    # the body: first '{' at angle/paren depth 0 after the name (where clauses contain no braces here)
+    b = s.find("{", m.end())
+    sc = s.find(";", m.end())
+    if b < 0 or (0 <= sc < b):
+        return []
+    body = s[b + 1:match_brace(s, b)]
+    out = []
+    for part in split_top(body):
+        t = re.sub(r"#\[[^\]]*\]", " ", part)
+        t = norm(t)
+        t = re.sub(r"^pub(\([^)]*\))?\s+", "", t)
+        if t:
+            out.append(re.sub(r"\s+", "", t) if m.group(1) == "struct" else t)
+    return {"kind": m.group(1), "members": out}
+
+
 def census(repo):
     sites = []
     mirrored = {}
+    state = {}
     for root, _, files in os.walk(os.path.join(repo, "src")):
         for f in sorted(files):
             if not f.endswith(".rs"):
@@ -166,6 +224,10 @@ def census(repo):
                         continue
                     text = receiver_text(s, i) if kind[0] == "." else macro_text(s, i)
                     sites.append({"file": rel, "fn": fn_of(i), "kind": kind.strip(".("), "text": text})
+            for tname in STATE_TYPES.get(rel, []):
+                tf = type_fields(s, tname)
+                if tf is not None:
+                    state["%s::%s" % (rel, tname)] = tf
             if rel == os.path.join("src", "solvers", "levmar", "mod.rs"):
                 # the two LeastSquaresProblem impls
                 impls = []
@@ -181,7 +243,7 @@ def census(repo):
                     mirrored[fname] = {"impls": [h for h, _ in bodies], "copies": len(bodies),
                                        "equal": len(bodies) == 2 and bodies[0][1] == bodies[1][1]}
     sites.sort(key=lambda d: (d["file"], d["fn"], d["kind"], d["text"]))
-    return {"panic_sites": sites, "mirrored": mirrored}
+    return {"panic_sites": sites, "mirrored": mirrored, "state": state}
 
 
 def key(d):
@@ -205,7 +267,40 @@ def compare(cur, ref):
             diffs.append("LeastSquaresProblem::%s: expected %d impls (sequential, parallel), found %s" % (fname, want["copies"], got and got["copies"]))
         elif want["equal"] and not got["equal"]:
             diffs.append("LeastSquaresProblem::%s differs between the sequential and the parallel impl (the model has one definition for both)" % fname)
+    for ent in ref.get("state", []):
+        got = cur.get("state", {}).get(ent["rust"])
+        if got is None:
+            diffs.append("state type %s not found in the source (the model's %s stands for it)" % (ent["rust"], ent["lean"]))
+        elif got["members"] != ent["members"]:
+            extra = [m for m in got["members"] if m not in ent["members"]]
+            gone = [m for m in ent["members"] if m not in got["members"]]
+            diffs.append("state type %s changed: %s%s%s - the model's %s has %s" % (
+                ent["rust"], ("new member(s) " + "; ".join(extra)) if extra else "",
+                " / " if extra and gone else "", ("member(s) gone " + "; ".join(gone)) if gone else "",
+                ent["lean"], " ".join(ent["lean_members"])) if (extra or gone) else
+                "state type %s: order of members changed" % ent["rust"])
+        lm = cur.get("lean_state", {}).get(ent["lean"])
+        if ent["lean"] != "-" and lm is not None and lm != ent["lean_members"]:
+            diffs.append("Lean structure %s has members %s, the reviewed correspondence lists %s" % (ent["lean"], " ".join(lm), " ".join(ent["lean_members"])))
+        if ent["lean"] != "-" and lm is None and "lean_state" in cur:
+            diffs.append("Lean structure %s not found by FieldCensus.lean" % ent["lean"])
     return diffs
+
+
+def lean_state(lean_dir):
+    """fields / constructors of the Lean structures, by reflection (lean/FieldCensus.lean)"""
+    import subprocess
+    subprocess.run(["lake", "build", "VarproModel.Core.LM", "VarproModel.Core.Stats", "VarproModel.Core.ProblemBuilder",
+                    "VarproModel.Core.ModelBuilder"], cwd=lean_dir, capture_output=True, text=True, timeout=1200)
+    out = subprocess.run(["lake", "env", "lean", "FieldCensus.lean"], cwd=lean_dir, capture_output=True, text=True, timeout=600)
+    res = {}
+    for line in out.stdout.splitlines():
+        t = line.split()
+        if len(t) >= 2 and t[0] in ("FIELDS", "CTORS"):
+            res[t[1]] = t[2:]
+    if not res:
+        raise RuntimeError("FieldCensus.lean printed nothing: " + out.stderr[:400])
+    return res
 
 
 if __name__ == "__main__":
